@@ -213,7 +213,7 @@ def probe(recipe, wd, allowed, reserved, optimize, entry, exname, res, facts_bas
     return viols, (P, exceeds)
 
 
-EXTRA = ("probes", "probes_over_budget", "probes_within_budget", "refused_at_build", "recipes_with_both_sides", "declined",
+EXTRA = ("recipes_ending_in_repeated_argument", "probes_at_unoptimised_boundary", "probes", "probes_over_budget", "probes_within_budget", "refused_at_build", "recipes_with_both_sides", "declined",
          "fuse_contract_evaluations", "fuse_multiple_contract_evaluations")
 GEN_KW = {"allow_zero": False, "weights": {"binary": 16, "unary": 8, "reduce": 14, "rechunk": 7, "multi": 4, "linalg": 6, "combo": 8, "index": 6}}
 
@@ -226,6 +226,12 @@ def run_shard(spec, workdir):
         g = gen.Gen(rng.getrandbits(48), maxdim=spec["maxdim"], depth=spec["depth"], **GEN_KW)
         g.maxblocks = 16
         recipe, np_vals = g.generate()
+        o = recipe["outputs"][0]
+        if rng.random() < 0.3 and isinstance(np_vals.get(o), np.ndarray) and np_vals[o].dtype.kind in "iuf":
+            # f(b, b): the same (fusable, single-consumer) array for two arguments of one operation
+            recipe["nodes"].append({"in": [o, o], "op": rng.choice(["add", "multiply", "maximum"]), "p": {}})
+            recipe["outputs"] = [len(recipe["nodes"]) - 1] + recipe["outputs"][1:]
+            res["counters"]["recipes_ending_in_repeated_argument"] += 1
         res["counters"]["recipes"] += 1
         for o in gen.recipe_ops(recipe):
             _rc.bump(res["hist"]["ops"], o)
@@ -244,7 +250,18 @@ def run_shard(spec, workdir):
             continue
         sides = set()
         facts = {"ops": gen.recipe_ops(recipe)}
-        for j, allowed in enumerate([M - 1, M, M + 1, max(reserved + 1, M // 2)]):
+        budgets = [M - 1, M, M + 1, max(reserved + 1, M // 2)]
+        if optimize is True:
+            # the budget at which the unoptimised plan just fits: optimisation must not lose admission there
+            try:
+                _, fp_un = build_and_plan(recipe, os.path.join(wd, "ref_un"), "2GB", reserved, False)
+                M_un = max_proj(fp_un)
+                if M_un > reserved and M_un not in budgets:
+                    budgets.append(M_un)
+                    res["counters"]["probes_at_unoptimised_boundary"] += 1
+            except Exception:
+                pass
+        for j, allowed in enumerate(budgets):
             entry = rng.choice(["compute", "compute", "to_zarr", "store", "to_zarr_eager", "store_eager"])
             exname = rng.choice(["single-threaded", "single-threaded", "threads"])
             if rng.random() < 0.02:
